@@ -136,9 +136,12 @@ CHECKS = {
                     thorough=dict(shards=16, checks=2500, timeout=1800)),
                dict(pkg="table", run="^TestC12Retry$",
                     quick=dict(shards=4, checks=3, timeout=300),
-                    thorough=dict(shards=16, checks=12, timeout=900))],
-        rule='retry part (c12r, shared with C07): the gate fires while blinds are unset, the first open attempt fails, a drawn 1-3 step blind script lands inside the 3 s retry window; final break => no hand opens, final valid level => hand 1 is created with exactly that level (not the blinds of the failed attempt); cases = generated histories with a drawn blind schedule: UpdateBlind between hands (before the open trigger), at in-hand decision points, breaks (-1) between hands and during hands, resume from a break, tables created on a break; oracle: options handed to the backend, hand meta and published game blind level = values in force when the harness released the open trigger; ante/blinds actually charged = min(amount, stack) per position; mid-hand updates change only later hands; no open and no button movement on a break; pause after a hand whose level became a break; non-trivial = a blind update or a break; distinct = distinct abstract traces',
-        mandatory=dict(quick=['retry_final_valid', 'retry_final_break', 'update_inhand', 'update_between', 'update_same_level_number', 'update_while_hand_is_created', 'update_in_first_snapshot_callback', 'break_after_hand', 'break_no_open', 'resume_from_break', 'created_on_break', 'ante_checked', 'blinds_checked']),
+                    thorough=dict(shards=16, checks=12, timeout=900)),
+               dict(pkg="table", run="^TestC12Interval$",
+                    quick=dict(shards=6, checks=5, timeout=300),
+                    thorough=dict(shards=16, checks=40, timeout=1500))],
+        rule='interval part (c12i): 1-3 hands with a real 1 s continue delay; a break (or a new level) is set 0-0.6 s after the settlement; when that returned < 0.9 s after the settlement was published the table must pause; retry part (c12r, shared with C07): the gate fires while blinds are unset, the first open attempt fails, a drawn 1-3 step blind script lands inside the 3 s retry window; final break => no hand opens, final valid level => hand 1 is created with exactly that level (not the blinds of the failed attempt); cases = generated histories with a drawn blind schedule: UpdateBlind between hands (before the open trigger), at in-hand decision points, breaks (-1) between hands and during hands, resume from a break, tables created on a break; oracle: options handed to the backend, hand meta and published game blind level = values in force when the harness released the open trigger; ante/blinds actually charged = min(amount, stack) per position; mid-hand updates change only later hands; no open and no button movement on a break; pause after a hand whose level became a break; non-trivial = a blind update or a break; distinct = distinct abstract traces',
+        mandatory=dict(quick=['break_in_continue_delay', 'retry_final_valid', 'retry_final_break', 'update_inhand', 'update_between', 'update_same_level_number', 'update_while_hand_is_created', 'update_in_first_snapshot_callback', 'break_after_hand', 'break_no_open', 'resume_from_break', 'created_on_break', 'ante_checked', 'blinds_checked']),
         assumptions=ASSUME_COMMON,
     ),
     "C13": dict(
@@ -146,7 +149,7 @@ CHECKS = {
                     quick=dict(shards=4, checks=150, timeout=300),
                     thorough=dict(shards=16, checks=2500, timeout=1800))],
         rule='cases = generated hands whose backend executes a drawn fault plan (player-action calls by ordinal failing 1-3 consecutive times; optionally one engine-step call - CreateGame/ReadyForAll/PayAnte/PayBlinds/Next - failing); oracle: failed action returns the injected error and table JSON, hand JSON and action events are unchanged, the resubmitted action succeeds, every backend call receives the result of the last successful call, the settled hand equals a pure replay of the successful calls, an engine-step failure reaches the table error callback; non-trivial = a hand with an injected player-action failure that later settles, or a reported engine-step failure; distinct = distinct abstract traces',
-        mandatory=dict(quick=['fail_fold', 'fail_check', 'fail_call', 'fail_raise', 'fail_allin', 'fail_pass', 'fail_then_settle', 'engine_step_failure_reported', 'repeat_fail_2', 'repeat_fail_3']),
+        mandatory=dict(quick=['fault_lost_reply_planned', 'fail_fold', 'fail_check', 'fail_call', 'fail_raise', 'fail_allin', 'fail_pass', 'fail_then_settle', 'engine_step_failure_reported', 'repeat_fail_2', 'repeat_fail_3']),
         assumptions=ASSUME_COMMON,
     ),
     "C14": dict(
@@ -159,7 +162,7 @@ CHECKS = {
                     quick=dict(shards=2, checks=200, timeout=300, gomaxprocs=3),
                     thorough=dict(shards=8, checks=2500, timeout=1800, gomaxprocs=3))],
         rule='cases = generated hands with raise-heavy temperaments; oracle: at settlement ActionTimes/CallTimes/CheckTimes = accepted submissions of that kind, raises <= actions, fold flag and round exactly for accepted folds, every did-flag implies its chance flag and at most one 3-bet holder at every published snapshot, statistics zero at the fence and at the next open; non-trivial = a hand with a raise and a fold or any did-flag set; distinct = distinct abstract traces',
-        mandatory=dict(quick=['did_3b', 'did_showdown', 'participants_2', 'participants_5']),
+        mandatory=dict(quick=['refused_attempt', 'refused_fold', 'did_3b', 'did_showdown', 'participants_2', 'participants_5']),
         assumptions=ASSUME_COMMON,
     ),
     "C15": dict(
@@ -204,9 +207,12 @@ CHECKS = {
             dict(pkg="table", run="^TestC17Facade$",
                  quick=dict(shards=4, checks=100, timeout=300),
                  thorough=dict(shards=16, checks=2000, timeout=1800)),
+            dict(pkg="table", run="^TestC17Callbacks$",
+                 quick=dict(shards=4, checks=2, timeout=300),
+                 thorough=dict(shards=16, checks=12, timeout=900)),
         ],
-        rule="(1) facade: the whole table-history driver (create, start, set-up, settlement-finish, reserve/join/re-buy/add-on/leave, blind update, deadline extension, all nine game actions incl. intruder attempts) is routed through Manager.X(tableID, ...) and the oracles of C01, C10, C12 and C15 apply unchanged; (2) twin managers with 1..6 tables and identical settings: a drawn sequence over all 25 manager methods is applied through the manager on one and through the engine obtained with GetTableEngine on the other; results (errors by text, values) and normalised table state must agree after every step; (3) every other table's state is byte-identical before and after each operation; (4) never-created / closed / released ids yield ErrManagerTableNotFound (-1 for the deadline); non-trivial = a sequence touching >=2 tables with at least one method of each group; distinct = distinct method sequences",
-        mandatory=dict(quick=["m:PauseTable", "m:CloseTable", "m:ReleaseTable", "m:StartTableGame", "m:UpdateBlind", "m:SetUpTableGame", "m:UpdateTablePlayers", "m:PlayerReserve", "m:PlayerJoin", "m:PlayerSettlementFinish", "m:PlayerRedeemChips", "m:PlayersLeave", "m:PlayerExtendActionDeadline", "m:PlayerReady", "m:PlayerPay", "m:PlayerBet", "m:PlayerRaise", "m:PlayerCall", "m:PlayerAllin", "m:PlayerCheck", "m:PlayerFold", "m:PlayerPass", "m:GetTableEngine", "m:CreateTable", "unknown_id", "closed_id", "released_id", "tables_6", "refused_create"]),
+        rule="callback part (c17cb): the same generated CT / cash scenario (table duration 1 s, one hand played after it is over) on a bare engine with hand-registered callbacks and on a table created through the Manager; every callback kind the bare engine delivers (table, state, player-state, reserved, action, first-game, auto-open-end) must also be delivered by the manager-created table; (1) facade: the whole table-history driver (create, start, set-up, settlement-finish, reserve/join/re-buy/add-on/leave, blind update, deadline extension, all nine game actions incl. intruder attempts) is routed through Manager.X(tableID, ...) and the oracles of C01, C10, C12 and C15 apply unchanged; (2) twin managers with 1..6 tables and identical settings: a drawn sequence over all 25 manager methods is applied through the manager on one and through the engine obtained with GetTableEngine on the other; results (errors by text, values) and normalised table state must agree after every step; (3) every other table's state is byte-identical before and after each operation; (4) never-created / closed / released ids yield ErrManagerTableNotFound (-1 for the deadline); non-trivial = a sequence touching >=2 tables with at least one method of each group; distinct = distinct method sequences",
+        mandatory=dict(quick=['callback_autoend', 'callbacks_cash', 'callbacks_ct', "m:PauseTable", "m:CloseTable", "m:ReleaseTable", "m:StartTableGame", "m:UpdateBlind", "m:SetUpTableGame", "m:UpdateTablePlayers", "m:PlayerReserve", "m:PlayerJoin", "m:PlayerSettlementFinish", "m:PlayerRedeemChips", "m:PlayersLeave", "m:PlayerExtendActionDeadline", "m:PlayerReady", "m:PlayerPay", "m:PlayerBet", "m:PlayerRaise", "m:PlayerCall", "m:PlayerAllin", "m:PlayerCheck", "m:PlayerFold", "m:PlayerPass", "m:GetTableEngine", "m:CreateTable", "unknown_id", "closed_id", "released_id", "tables_6", "refused_create"]),
         assumptions=ASSUME_COMMON + ["hands are not twinned (the manager builds its own backend); hand-level effects of the player-game methods are covered by the facade part"],
     ),
     "C18": dict(
@@ -241,7 +247,7 @@ CHECKS = {
                     quick=dict(shards=4, checks=100, timeout=300),
                     thorough=dict(shards=16, checks=2500, timeout=1800))],
         rule="every table notification (OnTableUpdated and OnTableStateUpdated) of generated hands, including the re-publications caused by table-level operations during a hand (reserve / join / re-buy / add-on / deadline extension), (all statuses and hand phases, showdown and fold-out endings, and hands that keep running after an external PauseTable / CloseTable) is handed - inside the engine's callback, as the engine's live table - to 1..5 actors attached in a drawn order (non-system observer, system observer, a scribbling system observer, a player runner) through the real TableEngineAdapter; oracle: the non-system observer is never shown deck, burned cards, hole cards or hand strength while the hand is in play, nor those of folded players after it closed; the engine's table is unchanged by the fan-out; no actor shares structure with the engine or another actor; what one actor changes is invisible to the others; the system observer gets the unmasked copy; non-trivial = a snapshot with dealt hole cards or a closed hand with folded and shown players; distinct = distinct generated histories",
-        mandatory=dict(quick=["playing_with_cards", "closed_showdown_with_fold", "closed_foldout", "paused_during_hand", "table_level_op_during_hand", "actors_1", "actors_5"]),
+        mandatory=dict(quick=['system_mode_switched_off_mid_hand', "playing_with_cards", "closed_showdown_with_fold", "closed_foldout", "paused_during_hand", "table_level_op_during_hand", "actors_1", "actors_5"]),
         assumptions=["only snapshots the engine emits are presented"],
     ),
     "C04": dict(
